@@ -61,6 +61,7 @@ impl Loader for ScriptedLoader {
     let r: LoadResult = match a.as_str() {
       "Module" => Ok(Some(LoadResponse::Module { content: Arc::from(Vec::<u8>::new()), mtime: None, specifier: specifier.clone(), maybe_headers: None })),
       "Redirect" => Ok(Some(LoadResponse::Redirect { specifier: ModuleSpecifier::parse(Y).unwrap() })),
+      "SelfRedirect" => Ok(Some(LoadResponse::Redirect { specifier: specifier.clone() })),
       "External" => Ok(Some(LoadResponse::External { specifier: specifier.clone() })),
       "NotFound" => Ok(None),
       o => Err(self.err(o)),
@@ -164,6 +165,10 @@ pub fn run_op(op: &Value) -> Value {
     _ => None,
   };
   let calls: Vec<Value> = loader.calls.borrow().iter().map(|c| json!({"cache_setting": c["cache_setting"], "checksum": c["checksum"]})).collect();
+  if op.get("serialize").is_some() {
+    let text = serde_json::to_string(&graph).unwrap();
+    return json!({"calls": calls, "result": result, "internal_error_in_serialisation": text.contains("INTERNAL ERROR")});
+  }
   json!({"calls": calls, "result": result, "err_has_referrer": err_has_referrer})
 }
 
